@@ -156,12 +156,14 @@ PROPS = {
     ),
     "C07": dict(
         title="Validation observes, it does not destroy what was archived",
-        lean_modules=["Gowarc.Props.C07", "Gowarc.Props.C07parser", "Gowarc.Props.C07repairs"],
+        lean_modules=["Gowarc.Props.C07", "Gowarc.Props.C07parser", "Gowarc.Props.C07repairs", "Gowarc.Props.C07fault"],
         audit_namespaces=["Gowarc.Props.C07"],
         n_quick=1500, n_thorough=20000,
         required_theorems=["C07_validate_keeps_header", "C07_observe", "C07_policy_independent", "C07_block_complete", "C07_parser_policy_independent",
-                           "C07_repairs_only", "C07_repairs_only_getAll", "validateDigest_others", "parseBlock_others", "others_set"],
-        model_assumptions=["C07_repairs_only: with ANY repair options and policies, the header of the record Unmarshal returns equals the parsed header on every field other than Content-Length, WARC-Block-Digest and WARC-Payload-Digest: same names, values, multiplicities and relative order (others r.hdr = others fs)", "see level_note"],
+                           "C07_repairs_only", "C07_repairs_only_getAll", "validateDigest_others", "parseBlock_others", "others_set",
+                           "C07_fault_explicit", "parseBlock_fault_kind", "validateDigest_fault"],
+        model_assumptions=["C07_fault_explicit: a block cut short by a READ ERROR (the stream fails before the declared number of bytes was delivered) is never handed out: Unmarshal returns an error under every policy and option setting, for every block kind (the oracle c07-fault-swallowed judges the same on the implementation for plain streams under all 81 policy combinations)",
+                           "C07_repairs_only: with ANY repair options and policies, the header of the record Unmarshal returns equals the parsed header on every field other than Content-Length, WARC-Block-Digest and WARC-Payload-Digest: same names, values, multiplicities and relative order (others r.hdr = others fs)", "see level_note"],
         design_ref="DESIGN.md section 5, C07",
         level_text="Kernel-checked: header validation never alters a field under any policy; the header parser returns the same fields and stops at the same byte under any two syntax policies that accept; with the repair options off a record returned under ANY policy setting carries exactly the parsed fields and exactly the block framed by Content-Length "
                    "(complete, never empty or shortened); protocol header ++ payload = content. Correspondence: every input parsed under all 81 policy combinations with repairs off, headers and drained blocks compared across policies on the implementation",
@@ -295,10 +297,10 @@ PROPS = {
     ),
     "C09": dict(
         title="Concurrent writing never loses, duplicates, tears or misplaces records",
-        lean_modules=["Gowarc.Props.C09", "Gowarc.Props.C10skel"],
+        lean_modules=["Gowarc.Props.C09", "Gowarc.Props.C10skel", "Gowarc.Props.C09batch"],
         audit_namespaces=["Gowarc.Props.C09"],
         n_quick=400, n_thorough=6000,
-        required_theorems=["C09_exactly_once", "C09_responded_written", "C09_nil_nothing", "C09_single_holder", "C09_skeleton", "step_loginv", "reach_loginv", "results_mono"],
+        required_theorems=["C09_exactly_once", "C09_responded_written", "C09_nil_nothing", "C09_single_holder", "C09_skeleton", "step_loginv", "reach_loginv", "results_mono", "C09_batch_adjacent", "C09_batch_next_file", "second_write"],
         model_assumptions=["as C10; the file-level clauses (intact at the reported offset, whole records, one file per record) are those of the sequential writer each worker is (C04, C13), under the worker's own lock",
                            "'the records of one Write lie contiguously in one file' is judged when all its responses name the same file: a size rotation or a concurrent Rotate between two records of a batch moves the rest to the next file (documented: 'if size permits')"],
         design_ref="DESIGN.md section 5, C09/C10",
